@@ -3061,3 +3061,64 @@ func c07R13(c *Ctx, r *Report) {
 	r.Check(consults(wt), rule, wt.Name(), "writing through a reference variable consults "+field, c.pos(wt.Decl.Pos()),
 		"a reference variable whose mutable loan was handed on can still be written through: `r = 2; r2 = 3;` both reach x")
 }
+
+// ---- C11.R12: `**=` does not narrow ---------------------------------------------------------------------------
+
+func init() {
+	lateInits = append(lateInits, func() {
+		props["C11"].Quick = append(props["C11"].Quick, c11R12)
+		props["C03"].Quick = append(props["C03"].Quick, c11R12)
+		props["C11"].Explanation += " (R12) a compound assignment with the power operator compares the type `**` yields (types.GetPowerResultType) with the type of the target and reports a difference: `z **= e` with z: i32 does not store an f64 into an i32."
+	})
+}
+
+func c11R12(c *Ctx, r *Report) {
+	const rule = "C11.R12"
+	r.Describe(rule, "typechecker.checkAssignStmt: a branch that tests requiredOp against tokens.EXP_TOKEN calls types.GetPowerResultType, compares its result with the target type by Equals, and adds a diagnostic")
+	fn := c.LookupFn(pkgTC, "checkAssignStmt")
+	gp := c.LookupFn("internal/types", "GetPowerResultType")
+	bagAdd := c.LookupFn("internal/diagnostics", "(*DiagnosticBag).Add")
+	if !r.Anchor(rule, fn != nil && gp != nil && bagAdd != nil, "typechecker.checkAssignStmt / types.GetPowerResultType / DiagnosticBag.Add") {
+		return
+	}
+	info := fn.Info()
+	ok := false
+	ast.Inspect(fn.Decl.Body, func(x ast.Node) bool {
+		ifs, isIf := x.(*ast.IfStmt)
+		if !isIf || !strings.Contains(exprStr(ifs.Cond), "EXP_TOKEN") {
+			return true
+		}
+		var resVar types.Object
+		ast.Inspect(ifs.Body, func(y ast.Node) bool {
+			if as, isAs := y.(*ast.AssignStmt); isAs && len(as.Lhs) == 1 && len(as.Rhs) == 1 {
+				if cl, isCall := as.Rhs[0].(*ast.CallExpr); isCall && isCallTo(info, cl, gp.Obj) {
+					resVar = objOf(info, as.Lhs[0])
+				}
+			}
+			return true
+		})
+		if resVar == nil {
+			return true
+		}
+		ast.Inspect(ifs.Body, func(y ast.Node) bool {
+			inner, isIf := y.(*ast.IfStmt)
+			if !isIf {
+				return true
+			}
+			cmp := false
+			ast.Inspect(inner.Cond, func(z ast.Node) bool {
+				if cl, isCall := z.(*ast.CallExpr); isCall && strings.HasSuffix(exprStr(cl.Fun), ".Equals") && len(cl.Args) == 1 && objOf(info, cl.Args[0]) == resVar {
+					cmp = true
+				}
+				return true
+			})
+			if cmp && nodeCalls(info, inner.Body, bagAdd.Obj) != nil {
+				ok = true
+			}
+			return true
+		})
+		return true
+	})
+	r.Check(ok, rule, fn.Name(), "`**=` requires the target to have the type `**` yields", c.pos(fn.Decl.Pos()),
+		"a compound assignment with the power operator is checked like a binary expression only: `let z: i32 = 3; let e: f64 = 2.0; z **= e;` passes the type checker (an implicit f64 -> i32) and QBE rejects the program (\"invalid type for first operand in arg\"); `z **= 2` on an i32 or f32 fails the same way")
+}
